@@ -1,4 +1,5 @@
 import PysphVerif.Lemmas.Determinism
+import PysphVerif.Lemmas.TreeReduce
 import PysphVerif.Gen.C05Discipline
 /-!
 # C05 — results do not depend on neighbour algorithm, cache, threads or re-ordering
@@ -256,6 +257,121 @@ theorem sorted_simulation_configuration_independent (key : Nat → Nat)
         c₂.sched st h₁ h₂ hsame hset hkey]
       exact ih l₂ _ (fun x hx => hdisc x (List.mem_cons_of_mem _ hx)) hrest
 
+/-! ## the neighbour search itself: threaded tree build, pruning, pair filter
+
+`Model/TreeReduce.lean`.  The structures the neighbour searches build are threaded
+too (octree build: whenever the environment offers threads, whatever `--openmp`
+says), and options such as `--fixed-h` reach the pair filter.  What the search
+returns must not depend on either. -/
+
+section tree
+open PysphVerif.TreeReduce
+
+/-- **The level-1 `hmax` table of the parallel octree build is schedule independent
+and equals the serial build's.**  For every number of threads, every hand-out of
+the particles to the threads (`chunks`, any permutation of `0..n-1`, not only
+OpenMP's static chunks), and every interleaving of the loop iterations, merging the
+per-thread tables gives, for every octant, what the single loop of the serial build
+computes. -/
+theorem level1_hmax_schedule_independent {α : Type} [LinearOrder α] (zero : α)
+    (oct : Nat → Nat) (h : Nat → α) (n : Nat) (chunks : List (List Nat)) (sched : List Nat)
+    (hperm : chunks.flatten.Perm (List.range n)) :
+    parHmax zero oct h n chunks sched = serialHmax zero oct h (List.range n) := by
+  have hc : ∀ c ∈ chunks, ∀ p ∈ c, p < n := by
+    intro c hcm p hp
+    exact List.mem_range.mp (hperm.mem_iff.mp (List.mem_flatten.mpr ⟨c, hcm, hp⟩))
+  funext o
+  unfold parHmax mergeTables
+  rw [parTables_take zero oct h n chunks sched hc,
+    merge_chunks zero oct h chunks _ (fun _ => le_refl _) o, serialHmax_apply]
+  exact octMax_perm oct h o zero hperm
+
+/-- two parallel builds (different thread counts, chunkings, timings) agree -/
+theorem level1_hmax_thread_configuration_irrelevant {α : Type} [LinearOrder α] (zero : α)
+    (oct : Nat → Nat) (h : Nat → α) (n : Nat) (chunks₁ chunks₂ : List (List Nat))
+    (sched₁ sched₂ : List Nat) (h₁ : chunks₁.flatten.Perm (List.range n))
+    (h₂ : chunks₂.flatten.Perm (List.range n)) :
+    parHmax zero oct h n chunks₁ sched₁ = parHmax zero oct h n chunks₂ sched₂ := by
+  rw [level1_hmax_schedule_independent zero oct h n chunks₁ sched₁ h₁,
+    level1_hmax_schedule_independent zero oct h n chunks₂ sched₂ h₂]
+
+/-- the table is an upper bound of the `h` of every particle of the octant - what
+the pruning test needs (`prune_sound`) -/
+theorem level1_hmax_bounds_octant {α : Type} [LinearOrder α] (zero : α) (oct : Nat → Nat)
+    (h : Nat → α) (n : Nat) (chunks : List (List Nat)) (sched : List Nat)
+    (hperm : chunks.flatten.Perm (List.range n)) (p : Nat) (hp : p < n) :
+    h p ≤ parHmax zero oct h n chunks sched (oct p) := by
+  rw [level1_hmax_schedule_independent zero oct h n chunks sched hperm, serialHmax_apply]
+  exact le_octMax_of_mem oct h _ zero _ p (List.mem_range.mpr hp) rfl
+
+/-- **Accumulating into ONE shared table is not schedule independent**: with the
+read-modify-write `hmax_children[o] = fmax(hmax_children[o], h[p])` executed by two
+threads there is an interleaving that loses the larger value (thread 1 loads, thread
+0 loads and stores 5, thread 1 stores 1). -/
+theorem shared_hmax_lost_update :
+    ∃ (oct : Nat → Nat) (h : Nat → Nat) (chunks : List (List Nat)) (sched : List Nat),
+      chunks.flatten.Perm (List.range 2) ∧
+      racyHmax 0 oct h chunks sched 0 < serialHmax 0 oct h (List.range 2) 0 :=
+  ⟨fun _ => 0, fun p => if p = 0 then 5 else 1, [[0], [1]], [1, 0, 0, 1], by decide, by decide⟩
+
+/-- ... while ONE thread on the shared table (the serial path, `OMP_NUM_THREADS=1`)
+computes the serial table under every schedule -/
+theorem shared_hmax_single_thread_ok {α : Type} [Max α] (zero : α) (oct : Nat → Nat)
+    (h : Nat → α) (c : List Nat) (sched : List Nat) :
+    racyHmax zero oct h [c] sched = serialHmax zero oct h c := by
+  unfold racyHmax serialHmax
+  simp only [racyProgs, interleave_single]
+  exact racy_fold_single oct h c _
+
+/-- **Pruning is sound when the node's `hmax` bounds the `h` of its particles.**  A
+particle `x` of a node (within `half` of the centre `c` on every axis) with
+`h_j ≤ hmax` is NOT a neighbour (gather or scatter) of a query point `q` for which
+the tree walk skips the node. -/
+theorem prune_sound {α : Type} [Field α] [LinearOrder α] [IsStrictOrderedRing α]
+    (half k hq hj hmax : α) (c q x : α × α × α) (hk : 0 ≤ k) (hhq : 0 ≤ hq) (hhj : 0 ≤ hj)
+    (hle : hj ≤ hmax)
+    (hin : |x.1 - c.1| ≤ half ∧ |x.2.1 - c.2.1| ≤ half ∧ |x.2.2 - c.2.2| ≤ half)
+    (hp : pruned half k hq hmax c q) : ¬ isNbr k (dist2 x q) hq hj := by
+  obtain ⟨d1, d2, d3⟩ := dist2_ge_axes x q
+  unfold isNbr
+  rcases hp with hp | hp | hp
+  · obtain ⟨a, b⟩ := sq_ge_of_pruned_axis half k hq hj hmax c.1 q.1 x.1 hk hhq hhj hle hin.1 hp
+    rintro (e | e) <;> linarith
+  · obtain ⟨a, b⟩ :=
+      sq_ge_of_pruned_axis half k hq hj hmax c.2.1 q.2.1 x.2.1 hk hhq hhj hle hin.2.1 hp
+    rintro (e | e) <;> linarith
+  · obtain ⟨a, b⟩ :=
+      sq_ge_of_pruned_axis half k hq hj hmax c.2.2 q.2.2 x.2.2 hk hhq hhj hle hin.2.2 hp
+    rintro (e | e) <;> linarith
+
+/-- ... and unsound when `hmax` under-estimates (a lost update): the node is skipped
+although it holds a particle whose scatter radius reaches the query point -/
+theorem prune_unsound_if_hmax_underestimated :
+    ∃ (half k hq hj hmax : Rat) (c q x : Rat × Rat × Rat),
+      0 ≤ k ∧ 0 ≤ hq ∧ 0 ≤ hj ∧ hmax < hj ∧
+      (|x.1 - c.1| ≤ half ∧ |x.2.1 - c.2.1| ≤ half ∧ |x.2.2 - c.2.2| ≤ half) ∧
+      pruned half k hq hmax c q ∧ isNbr k (dist2 x q) hq hj :=
+  ⟨1, 2, 1, 5, 1, (0, 0, 0), (5, 0, 0), (1, 0, 0), by norm_num, by norm_num, by norm_num,
+    by norm_num, by norm_num, Or.inl (by norm_num [prunedOnAxis]),
+    Or.inr (by norm_num [dist2])⟩
+
+/-- the pair filter is symmetric: `j` is listed for `i` iff `i` is listed for `j` -/
+theorem isNbr_symm {α : Type} [Mul α] [LT α] (k d2 hi hj : α) :
+    isNbr k d2 hi hj ↔ isNbr k d2 hj hi := Or.comm
+
+/-- with a spatially uniform `h` the gather radius alone selects the same pairs ... -/
+theorem gather_only_eq_of_uniform_h {α : Type} [Mul α] [LT α] (k d2 h : α) :
+    isNbrGather k d2 h ↔ isNbr k d2 h h := (or_self_iff).symm
+
+/-- ... but "constant in time" (`--fixed-h`) is not "uniform in space": with
+`h_i < h_j` the gather radius alone loses the pairs inside the scatter radius, and
+is not symmetric -/
+theorem gather_only_misses_scatter :
+    ∃ (k d2 hi hj : Nat), isNbr k d2 hi hj ∧ ¬ isNbrGather k d2 hi ∧ isNbrGather k d2 hj :=
+  ⟨2, 9, 1, 2, by simp [isNbr], by simp [isNbrGather], by simp [isNbrGather]⟩
+
+end tree
+
 /-! ## the discipline table extracted from the shipped equations -/
 
 /-- **Every shipped equation keeps the own-row discipline** (or is one of the listed,
@@ -296,6 +412,13 @@ example : sortNbrs (fun j => 100 - j) [3, 9, 4, 7] = [9, 7, 4, 3] := by
 in different orders -/
 example : sortNbrs (fun j => 100 - j) [3, 9, 4, 7] = sortNbrs (fun j => 100 - j) [7, 4, 3, 9] :=
   sortNbrs_eq_of_perm _ _ _ (by decide) (by decide)
+
+/-- three threads, a non-trivial interleaving, four octants: the parallel table -/
+example :
+    (List.range 4).map (PysphVerif.TreeReduce.parHmax 0 (fun p => p % 4)
+      (fun p => (7 * p + 3) % 11) 9 [[0, 1, 2], [3, 4, 5], [6, 7, 8]] [2, 0, 1, 1, 2, 0, 0, 5]) =
+    (List.range 4).map (PysphVerif.TreeReduce.serialHmax 0 (fun p => p % 4)
+      (fun p => (7 * p + 3) % 11) (List.range 9)) := by decide
 
 example : gather [2, 0, 1] ["a", "b", "c"] = ["c", "a", "b"] := by decide
 
